@@ -11,7 +11,7 @@
     fixes/C18-zero-state.diff; the C18_zero_state_repaired_* theorems describe the tree). *)
 From Coq Require Import QArith Qabs List NArith Bool Reals.
 From MxlBase Require Import ListX.
-From Mca Require Import Mca GenMcaFacts ExpectedFacts McaAlgebra McaZero McaTiny McaRestore McaSchedule McaPowerLaw McaMoebius McaEndToEnd.
+From Mca Require Import Mca GenMcaFacts ExpectedFacts McaAlgebra McaZero McaTiny McaRestore McaSchedule McaPowerLaw McaMoebius McaEndToEnd McaIndirect McaIndirectProofs.
 Import ListNotations.
 Open Scope Q_scope.
 
@@ -570,3 +570,119 @@ Proof.
   - eexists. split; vm_compute; reflexivity.
 Qed.
 Print Assumptions C18_nonvacuous.
+
+(** ---- 4th pass: parameters that act INDIRECTLY (computed parameters, assigned initial values,
+         parameter-dependent stoichiometry); McaIndirect.v ------------------------------------------ *)
+
+(** The tree's parameter_elasticities on a model with COMPUTED parameters ([ifluxes]: derived
+    parameters with parameter-only arguments and initial-assignment parameters are re-evaluated from
+    the base parameter values at every flux evaluation, because update_parameters discards the
+    cache): kr = k0 / k1, vmax = k0 * k1, v = (kr x0, vmax x0, k0 x0), d = 1/4, scaled.  The cells
+    are the TOTAL kinetic orders through the computed parameters -- k0: 1, 1, 1;  k1: -1 (exactly
+    -1/(1 - d^2) = -16/15, the central difference of 1/k), 1, 0 -- and the model is handed back.
+    The regenerated facts are used, so an edited routine breaks this obligation as well. *)
+Theorem C18_computed_parameters_total_order :
+  match par_elast gen_mca_facts (ifluxes w_cps w_net) (1 # 4) true None [200%N; 201%N] w_st with
+  | Some (st', t) =>
+      state_eqb st' w_st &&
+      table_eqb t [(200%N, [Some 1; Some 1; Some 1]); (201%N, [Some (-16 # 15); Some 1; Some 0])]
+  | None => false
+  end = true.
+Proof. exact computed_parameters_total_order. Qed.
+Print Assumptions C18_computed_parameters_total_order.
+
+(** REGRESSION (shape of seeded change C18-7): parameter_elasticities that hands the displaced value
+    over in the `variables` dict (`variables | {par: value}`) instead of updating the model.  For
+    EVERY network, every set of computed parameters, every state, displacement, flag and rule: a
+    parameter that no reaction reads directly (it acts through computed parameters only) gets a
+    column of zeros (or NaN) -- whatever its true sensitivity is. *)
+Theorem C18_override_blind_to_computed_parameters :
+  forall (facts : mca_facts) (cps : list cpar) (net : list plrxn) (d : Q) (normalized : bool)
+         (pars vars : alist) (p : name) (col : list cell),
+    reads p net = false -> has p vars = false ->
+    ovr_column facts (ifluxes cps net) d normalized pars vars p = Some col ->
+    Forall (fun c => match c with Some v => v == 0 | None => True end) col.
+Proof. exact override_blind. Qed.
+Print Assumptions C18_override_blind_to_computed_parameters.
+
+(** ... and on the input of [C18_computed_parameters_total_order] that shape returns k0: 0, 0, 1 (only
+    the direct order) and k1: 0, 0, 0 instead of 1, 1, 1 and -16/15, 1, 0 *)
+Theorem C18_override_refuted :
+  match par_elast_ovr w_facts (ifluxes w_cps w_net) (1 # 4) true None [200%N; 201%N] w_st with
+  | Some t => table_eqb t [(200%N, [Some 0; Some 0; Some 1]); (201%N, [Some 0; Some 0; Some 0])]
+  | None => false
+  end = true.
+Proof. exact override_witness. Qed.
+Print Assumptions C18_override_refuted.
+
+(** Initial values that are ASSIGNMENTS ([IPar p] = the value of parameter p).  The tree's worker
+    snapshots the RAW initial values of the variables y0 overrides ([SaveRawOfY0]; pinned through the
+    statement text that yields SSaveY0); with no y0 or one overridden variable it hands the model
+    back as it found it, assignments included -- for every model content, parameter, displacement,
+    flag and rule.  (PARTIAL: several overridden variables at once are validated by the harness, the
+    restore of plain numbers for any y0 is C18_worker_restores.) *)
+Theorem C18_assigned_initial_values_restored_partial :
+  forall (q : quot_kind) (d : Q) (normalized : bool) (y0 : option alist) (p : name) (st st' : istate)
+         (obs : list mstate),
+    (y0 = None \/ exists x v, y0 = Some [(x, v)]) ->
+    iworker SaveRawOfY0 q d normalized y0 p st = Some (st', obs) -> st' = st.
+Proof. exact raw_snapshot_restores. Qed.
+Print Assumptions C18_assigned_initial_values_restored_partial.
+
+(** non-vacuity + what the runs see: conserved cycle, x0(0) := k2, the caller overrides x1 only;
+    scanning k0 then k2, the sequential execution equals the pool, returns the model, and the two runs
+    for k2 start from x0(0) = k2 (1 +- d) = 5/2, 3/2 *)
+Example C18_assigned_initial_values_nonvacuous :
+  match iseq SaveRawOfY0 QuotCentralRelAbs0 (1 # 4) false a_y0 [200%N; 202%N] a_st,
+        ipar SaveRawOfY0 QuotCentralRelAbs0 (1 # 4) false a_y0 [200%N; 202%N] a_st with
+  | Some (st', rs), Some rs' =>
+      istate_eqb st' a_st && obs_eqb rs rs' &&
+      obs_eqb (skipn 1 rs) [(202%N, [mkState [(200%N, 1); (201%N, 3); (202%N, 5 # 2)] [(100%N, 5 # 2); (101%N, 1 # 2)];
+                                      mkState [(200%N, 1); (201%N, 3); (202%N, 3 # 2)] [(100%N, 3 # 2); (101%N, 1 # 2)]])]
+  | _, _ => false
+  end = true.
+Proof. exact raw_snapshot_witness. Qed.
+Print Assumptions C18_assigned_initial_values_nonvacuous.
+
+(** REGRESSION (shape of seeded change C18-8): a worker that snapshots the EVALUATED initial
+    conditions of ALL variables (`old_y0 = model.get_initial_conditions()`) and writes them back:
+    after one worker the assignment x0(0) := k2 is the number 2; in the sequential execution the runs
+    for k2 then start from x0(0) = 2 both times (pool: 5/2 and 3/2), so sequential and parallel
+    execution are distinguishable and the model is not handed back *)
+Theorem C18_evaluated_snapshot_refuted :
+  (match iworker SaveAllEvaluated QuotCentralRelAbs0 (1 # 4) false a_y0 200%N a_st with
+   | Some (st', _) => istate_eqb st' (mkIState (is_pars a_st) [(100%N, INum 2); (101%N, INum 0)])
+   | None => false end = true) /\
+  (match iseq SaveAllEvaluated QuotCentralRelAbs0 (1 # 4) false a_y0 [200%N; 202%N] a_st,
+         ipar SaveAllEvaluated QuotCentralRelAbs0 (1 # 4) false a_y0 [200%N; 202%N] a_st with
+   | Some (st', rs), Some rs' =>
+       negb (istate_eqb st' a_st) && negb (obs_eqb rs rs') &&
+       obs_eqb (skipn 1 rs) [(202%N, [mkState [(200%N, 1); (201%N, 3); (202%N, 5 # 2)] [(100%N, 2); (101%N, 1 # 2)];
+                                       mkState [(200%N, 1); (201%N, 3); (202%N, 3 # 2)] [(100%N, 2); (101%N, 1 # 2)]])]
+   | _, _ => false end = true).
+Proof. exact evaluated_snapshot_refuted. Qed.
+Print Assumptions C18_evaluated_snapshot_refuted.
+
+(** REGRESSION (shape of seeded change C18-9): response_coefficients that does not run the parameters
+    in a set `unused` and reports 0 for them.  -> A -> n B ->  with the yield n used only as a
+    stoichiometric coefficient ([ss_yield]: A = k0/k1, B = n k0/k2, J = (k0, k0, n k0), which balances
+    the written-out right-hand side); the regenerated worker list + [worker_columns]:
+    (i) the tree: R(B, n) = R(v2, n) = 1, everything 0 for the truly unused k4;
+    (ii) skipping {n, k4} (n is no ARGUMENT of any reaction): the column of n is 0 throughout;
+    (iii) skipping only k4 gives the tree's table. *)
+Theorem C18_unused_skip_refuted :
+  (forall k0 k1 k2 n : Q, ~ k1 == 0 -> ~ k2 == 0 ->
+     k0 - k1 * (k0 / k1) == 0 /\ n * (k1 * (k0 / k1)) - k2 * (n * k0 / k2) == 0) /\
+  (match run_tree [203%N; 204%N] with
+   | Some t => columns_eqb t [(203%N, ([Some 0; Some 1], [Some 0; Some 0; Some 1]));
+                              (204%N, ([Some 0; Some 0], [Some 0; Some 0; Some 0]))]
+   | None => false end = true) /\
+  (match skip_result [203%N; 204%N] [203%N; 204%N] 2 3 run_tree with
+   | Some t => columns_eqb t [(203%N, ([Some 0; Some 0], [Some 0; Some 0; Some 0]));
+                              (204%N, ([Some 0; Some 0], [Some 0; Some 0; Some 0]))]
+   | None => false end = true) /\
+  (match skip_result [204%N] [203%N; 204%N] 2 3 run_tree, run_tree [203%N; 204%N] with
+   | Some t, Some t' => columns_eqb t t'
+   | _, _ => false end = true).
+Proof. exact (conj yield_balance unused_skip_refuted). Qed.
+Print Assumptions C18_unused_skip_refuted.
